@@ -238,7 +238,7 @@ def gen_plan(tape, cfg):
                 o["fun"] = tape.choice(["f", "g", "P"], "badinterp.fun")
                 o["nformals"] = tape.choice([0, 3], "badinterp.n")
             elif kind == "sl_error":
-                o["cmd"] = tape.choice(["declare-fun", "assert", "push", "check-sat"], "sl_error.cmd")
+                o["cmd"] = tape.choice(["declare-fun", "assert", "push", "check-sat", "pop", "get-value"], "sl_error.cmd")
                 o["via"] = tape.choice(["direct", "is_sat", "is_valid"], "sl_error.via")
                 o["f"] = bp.gen_term(tape, bp.BOOL, 2, sctx)
                 o["newsym"] = "nz%d" % tape.draw(3, "sl_error.sym")
@@ -248,6 +248,9 @@ def gen_plan(tape, cfg):
             if o["kind"] in ("illtyped_construct", "illtyped_subst", "unsupported", "redefine_symbol",
                              "undefined_symbol", "bad_hr", "bad_size_measure") and tape.chance(2, 3, "retry?"):
                 pending_retry.append(dict(o, op="both_fault"))
+            if o["kind"] == "sl_error" and o["cmd"] == "pop":
+                # what a query left behind (had its level not been popped) would contradict this one
+                pending_retry.insert(0, {"op": "sl", "sop": "is_sat", "f": ["not", o["f"]]})
             if o["kind"] == "undefined_symbol" and o.get("via") == "hr":
                 # later the name gets declared (on both twins) and is parsed again by the same parser
                 nm = o["name"].replace("!", "_")
@@ -648,6 +651,13 @@ def execute(plan, tape):
                     # objects rely on the global environment for parsing and simplification)
                     on(A, lambda: A.smtlib(world))
                     on(B, lambda: B.smtlib(world))
+                    # valid first half of the composite operation, made by both twins: a one-shot query
+                    # (leaves a level to be popped by the next call) / a solve (so that values can be asked)
+                    pre = {"pop": {"op": "sl", "sop": "is_sat", "f": o["f"]},
+                           "get-value": {"op": "sl", "sop": "solve"}}.get(o["cmd"])
+                    if pre is not None and o.get("via", "direct") == "direct":
+                        ra, rb = on(A, lambda: sl_do(A, pre)), on(B, lambda: sl_do(B, pre))
+                        same("smtlib_solver." + pre["sop"], ra, rb, None, "first half of a composite operation")
                 fn, after = _fault_fn(o, term, symbols, user, A, tape)
                 r = on(A, fn)
                 if fk == "sl_error":
@@ -927,6 +937,13 @@ def _fault_fn(o, term, symbols, user, side, tape):
             if cmd == "push":
                 return s_.push(1)
             if cmd == "check-sat":
+                return s_.solve()
+            if cmd == "pop":
+                # refused only if an earlier one-shot query left a level to be popped by this call
+                return s_.solve()
+            if cmd == "get-value":
+                if side.sl_sat:
+                    return s_.get_value(mgr.TRUE())
                 return s_.solve()
             return s_.add_assertion(f)
         return fn, None
